@@ -100,16 +100,69 @@ func (c *Ctx) tableRowsOfGlobal(g *ssa.Global) []map[string]string {
 
 func (c *Ctx) literalRows(info *types.Info, lit *ast.CompositeLit) []map[string]string {
 	var elemT *types.Struct
+	single := false
 	if tv, ok := info.Types[lit]; ok {
 		switch u := tv.Type.Underlying().(type) {
 		case *types.Slice:
 			elemT, _ = u.Elem().Underlying().(*types.Struct)
 		case *types.Array:
 			elemT, _ = u.Elem().Underlying().(*types.Struct)
+		case *types.Struct:
+			// a single record: one row
+			elemT, single = u, true
 		}
 	}
 	if elemT == nil {
 		return nil
+	}
+	// fields of nested struct literals (embedded or named) appear under "outer.inner"; promoted fields of embedded structs also
+	// under their own name
+	var fill func(row map[string]string, prefix string, st *types.Struct, rl *ast.CompositeLit, promote bool)
+	fill = func(row map[string]string, prefix string, st *types.Struct, rl *ast.CompositeLit, promote bool) {
+		for i, sub := range rl.Elts {
+			name := ""
+			var fld *types.Var
+			if kv, ok := sub.(*ast.KeyValueExpr); ok {
+				if id, ok := kv.Key.(*ast.Ident); ok {
+					name = id.Name
+					for j := 0; j < st.NumFields(); j++ {
+						if st.Field(j).Name() == name {
+							fld = st.Field(j)
+						}
+					}
+				}
+				sub = kv.Value
+			} else if i < st.NumFields() {
+				fld = st.Field(i)
+				name = fld.Name()
+			}
+			if name == "" {
+				continue
+			}
+			if tv, ok := info.Types[sub]; ok && tv.Value != nil {
+				val := tv.Value.ExactString()
+				if tv.Value.Kind() == constant.String {
+					val = constant.StringVal(tv.Value)
+				}
+				row[prefix+name] = val
+				if promote {
+					if _, dup := row[name]; !dup {
+						row[name] = val
+					}
+				}
+				continue
+			}
+			if inner, ok := ast.Unparen(sub).(*ast.CompositeLit); ok && fld != nil {
+				if ist, ok := fld.Type().Underlying().(*types.Struct); ok {
+					fill(row, prefix+name+".", ist, inner, fld.Embedded() && (promote || prefix == ""))
+				}
+			}
+		}
+	}
+	if single {
+		row := map[string]string{}
+		fill(row, "", elemT, lit, false)
+		return []map[string]string{row}
 	}
 	var rows []map[string]string
 	for _, el := range lit.Elts {
@@ -121,24 +174,7 @@ func (c *Ctx) literalRows(info *types.Info, lit *ast.CompositeLit) []map[string]
 			return nil
 		}
 		row := map[string]string{}
-		for i, sub := range rl.Elts {
-			name := ""
-			if kv, ok := sub.(*ast.KeyValueExpr); ok {
-				if id, ok := kv.Key.(*ast.Ident); ok {
-					name = id.Name
-				}
-				sub = kv.Value
-			} else if i < elemT.NumFields() {
-				name = elemT.Field(i).Name()
-			}
-			if tv, ok := info.Types[sub]; ok && tv.Value != nil && name != "" {
-				if tv.Value.Kind() == constant.String {
-					row[name] = constant.StringVal(tv.Value)
-				} else {
-					row[name] = tv.Value.ExactString()
-				}
-			}
-		}
+		fill(row, "", elemT, rl, false)
 		rows = append(rows, row)
 	}
 	return rows
@@ -221,34 +257,46 @@ func (c *Ctx) rowSource(v ssa.Value, depth int) []map[string]string {
 // constsOf: the constant values (Go syntax, strings unquoted) a value can take, resolved through phis, parameters (all call sites)
 // and fields of table rows; "?" marks an unresolved contribution.
 func (c *Ctx) constsOf(v ssa.Value, depth int) []string {
-	set := map[string]bool{}
-	var walk func(v ssa.Value, d int)
-	walk = func(v ssa.Value, d int) {
+	m := c.constsCount(v, depth)
+	var out []string
+	for k := range m {
+		out = append(out, k)
+	}
+	sort.Strings(out)
+	return out
+}
+
+// constsCount: like constsOf, with the number of independent sources (call sites of the function whose parameter it is, rows of the
+// table whose field it is) each constant comes from; alternatives of one merge count once.
+func (c *Ctx) constsCount(v ssa.Value, depth int) map[string]int {
+	one := func(k string) map[string]int { return map[string]int{k: 1} }
+	var walk func(v ssa.Value, d int) map[string]int
+	walk = func(v ssa.Value, d int) map[string]int {
 		if v == nil || d > 8 {
-			set["?"] = true
-			return
+			return one("?")
 		}
 		switch x := v.(type) {
 		case *ssa.Const:
 			if x.Value == nil {
-				set["nil"] = true
+				return one("nil")
 			} else if x.Value.Kind() == constant.String {
-				set[constant.StringVal(x.Value)] = true
-			} else {
-				set[x.Value.ExactString()] = true
+				return one(constant.StringVal(x.Value))
 			}
-			return
+			return one(x.Value.ExactString())
 		case *ssa.Phi:
+			out := map[string]int{}
 			for _, e := range x.Edges {
-				walk(e, d+1)
+				for k, n := range walk(e, d+1) {
+					if n > out[k] {
+						out[k] = n
+					}
+				}
 			}
-			return
+			return out
 		case *ssa.Convert:
-			walk(x.X, d+1)
-			return
+			return walk(x.X, d+1)
 		case *ssa.ChangeType:
-			walk(x.X, d+1)
-			return
+			return walk(x.X, d+1)
 		case *ssa.Parameter:
 			fn := x.Parent()
 			idx := -1
@@ -259,55 +307,64 @@ func (c *Ctx) constsOf(v ssa.Value, depth int) []string {
 			}
 			sites := callSitesOf(c, fn)
 			if len(sites) == 0 || idx < 0 {
-				set["?"] = true
-				return
+				return one("?")
 			}
+			out := map[string]int{}
 			for _, site := range sites {
 				if idx < len(site.Common().Args) {
-					walk(site.Common().Args[idx], d+1)
+					for k, n := range walk(site.Common().Args[idx], d+1) {
+						out[k] += n
+					}
 				} else {
-					set["?"] = true
+					out["?"]++
 				}
 			}
-			return
-		case *ssa.Field:
-			if rows := c.rowSource(x.X, 0); rows != nil {
-				fname := fieldNameOf(x.X.Type(), x.Field)
-				for _, r := range rows {
-					if val, ok := r[fname]; ok {
-						set[val] = true
-					} else {
-						set["?"] = true
-					}
-				}
-				return
-			}
-		case *ssa.UnOp:
-			if x.Op == token.MUL {
-				if fa, ok := x.X.(*ssa.FieldAddr); ok {
-					if rows := c.rowSource(fa.X, 0); rows != nil {
-						fname := fieldNameOf(fa.X.Type(), fa.Field)
-						for _, r := range rows {
-							if val, ok := r[fname]; ok {
-								set[val] = true
-							} else {
-								set["?"] = true
-							}
-						}
-						return
-					}
-				}
+			return out
+		}
+		// a field (chain) of a table row / record
+		if base, path := accessPath(v); len(path) > 0 {
+			if m := c.rowFieldCount(base, path); m != nil {
+				return m
 			}
 		}
-		set["?"] = true
+		return one("?")
 	}
-	walk(v, depth)
-	var out []string
-	for k := range set {
-		out = append(out, k)
+	return walk(v, depth)
+}
+
+// rowFieldCount: the constants of one field (path) over the rows of the constant table base is an element of; nil when base is none.
+func (c *Ctx) rowFieldCount(base ssa.Value, path []int) map[string]int {
+	rows := c.rowSource(base, 0)
+	if rows == nil {
+		return nil
 	}
-	sort.Strings(out)
+	fname := fieldPathName(base.Type(), path)
+	out := map[string]int{}
+	for _, r := range rows {
+		if val, ok := r[fname]; ok {
+			out[val]++
+		} else {
+			out["?"]++
+		}
+	}
 	return out
+}
+
+// fieldPathName: the dotted name of a field path from a struct (or pointer to struct) type.
+func fieldPathName(t types.Type, path []int) string {
+	var parts []string
+	for _, idx := range path {
+		if p, ok := t.Underlying().(*types.Pointer); ok {
+			t = p.Elem()
+		}
+		st, ok := t.Underlying().(*types.Struct)
+		if !ok || idx >= st.NumFields() {
+			return ""
+		}
+		parts = append(parts, st.Field(idx).Name())
+		t = st.Field(idx).Type()
+	}
+	return strings.Join(parts, ".")
 }
 
 func fieldNameOf(t types.Type, idx int) string {
@@ -318,4 +375,373 @@ func fieldNameOf(t types.Type, idx int) string {
 		return st.Field(idx).Name()
 	}
 	return ""
+}
+
+// ---- the settings API seen through wrappers ----
+
+// sym: a value of some frame, or a field (chain) of it that the frame itself never loads.
+type sym struct {
+	v    ssa.Value
+	path []int
+}
+
+func (a sym) ok() bool { return a.v != nil }
+
+// settingRoles: the (type, name, value) of a settings access, in the frame that holds the call.
+type settingRoles struct {
+	tp, name, value sym
+}
+
+// symOf: strips conversions and quoting, splits field loads into (struct, path); a by-value parameter kept in a cell is the parameter.
+func symOf(v ssa.Value) sym {
+	for i := 0; i < 6 && v != nil; i++ {
+		switch x := v.(type) {
+		case *ssa.Convert:
+			v = x.X
+			continue
+		case *ssa.ChangeType:
+			v = x.X
+			continue
+		case *ssa.MakeInterface:
+			v = x.X
+			continue
+		case *ssa.Call:
+			if sc := x.Common().StaticCallee(); sc != nil && sc.String() == "strconv.Quote" && len(x.Common().Args) == 1 {
+				v = x.Common().Args[0]
+				continue
+			}
+		}
+		break
+	}
+	if v == nil {
+		return sym{}
+	}
+	base, path := accessPath(v)
+	// the struct itself loaded from its cell
+	if u, ok := base.(*ssa.UnOp); ok && u.Op == token.MUL {
+		if al, ok := u.X.(*ssa.Alloc); ok {
+			base = al
+		}
+	}
+	if al, ok := base.(*ssa.Alloc); ok {
+		if p, spilled := isSpilledParam(al); spilled {
+			return sym{p, path}
+		}
+		if len(path) > 0 {
+			if fv, ok := fieldValueIn(al, path, 0); ok {
+				return symOf(fv)
+			}
+		}
+	}
+	return sym{base, path}
+}
+
+// resolveAtSite: a value of the callee's frame expressed in the caller's frame of one call: parameters become arguments, fields
+// read from a struct parameter become what the caller stored into that field of the struct it passes.
+func resolveAtSite(a sym, call ssa.CallInstruction, callee *ssa.Function) sym {
+	if !a.ok() {
+		return sym{}
+	}
+	switch x := a.v.(type) {
+	case *ssa.Const:
+		return a
+	case *ssa.Global:
+		return a
+	case *ssa.UnOp:
+		if _, ok := x.X.(*ssa.Global); ok && x.Op == token.MUL {
+			return a
+		}
+	case *ssa.Parameter:
+		for i, p := range callee.Params {
+			if p == x && i < len(call.Common().Args) {
+				arg := symOf(call.Common().Args[i])
+				if !arg.ok() {
+					return sym{}
+				}
+				full := sym{arg.v, append(append([]int{}, arg.path...), a.path...)}
+				if al, ok := full.v.(*ssa.Alloc); ok && len(full.path) > 0 {
+					if fv, ok := fieldValueIn(al, full.path, 0); ok {
+						return symOf(fv)
+					}
+				}
+				return full
+			}
+		}
+	}
+	return sym{}
+}
+
+// fieldValueIn: the value stored into field path of the struct object obj (a local composite literal, possibly nested).
+func fieldValueIn(obj ssa.Value, path []int, depth int) (ssa.Value, bool) {
+	if len(path) == 0 {
+		return obj, true
+	}
+	if depth > 4 {
+		return nil, false
+	}
+	var cell *ssa.Alloc
+	switch x := obj.(type) {
+	case *ssa.UnOp:
+		if x.Op == token.MUL {
+			cell, _ = x.X.(*ssa.Alloc)
+		}
+	case *ssa.Alloc:
+		cell = x
+	}
+	if cell == nil || cell.Referrers() == nil {
+		return nil, false
+	}
+	for _, r := range *cell.Referrers() {
+		fa, ok := r.(*ssa.FieldAddr)
+		if !ok || fa.Field != path[0] || fa.Referrers() == nil {
+			continue
+		}
+		for _, rr := range *fa.Referrers() {
+			if st, ok := rr.(*ssa.Store); ok && st.Addr == ssa.Value(fa) {
+				return fieldValueIn(st.Val, path[1:], depth+1)
+			}
+		}
+		// nested struct field initialised in place: &cell.f.g
+		if len(path) > 1 {
+			for _, rr := range *fa.Referrers() {
+				if fa2, ok := rr.(*ssa.FieldAddr); ok && fa2.Field == path[1] && fa2.Referrers() != nil {
+					for _, r3 := range *fa2.Referrers() {
+						if st, ok := r3.(*ssa.Store); ok && st.Addr == ssa.Value(fa2) {
+							return fieldValueIn(st.Val, path[2:], depth+1)
+						}
+					}
+				}
+			}
+		}
+	}
+	return nil, false
+}
+
+// sameSym: two symbolic values of one frame denote the same value.
+func sameSym(a, b sym) bool {
+	if !a.ok() || !b.ok() || !samePath(a.path, b.path) {
+		return false
+	}
+	if a.v == b.v || sameExpr(a.v, b.v, 0) {
+		return true
+	}
+	sa, ok1 := constStr(a.v)
+	sb, ok2 := constStr(b.v)
+	return ok1 && ok2 && sa == sb
+}
+
+// constsOfSym: constsCount for a symbolic value.
+func (c *Ctx) constsOfSym(a sym) map[string]int {
+	if !a.ok() {
+		return map[string]int{"?": 1}
+	}
+	if len(a.path) == 0 {
+		return c.constsCount(a.v, 0)
+	}
+	if m := c.rowFieldCount(a.v, a.path); m != nil {
+		return m
+	}
+	// a field of a struct parameter: every call site contributes
+	if p, ok := a.v.(*ssa.Parameter); ok {
+		fn := p.Parent()
+		out := map[string]int{}
+		for i, q := range fn.Params {
+			if q != p {
+				continue
+			}
+			for _, site := range callSitesOf(c, fn) {
+				if i >= len(site.Common().Args) {
+					out["?"]++
+					continue
+				}
+				arg := symOf(site.Common().Args[i])
+				full := sym{arg.v, append(append([]int{}, arg.path...), a.path...)}
+				if al, ok := full.v.(*ssa.Alloc); ok {
+					if fv, ok := fieldValueIn(al, full.path, 0); ok {
+						full = symOf(fv)
+					}
+				}
+				if full.ok() && (full.v != a.v || !samePath(full.path, a.path)) {
+					for k, n := range c.constsOfSym(full) {
+						out[k] += n
+					}
+				} else {
+					out["?"]++
+				}
+			}
+		}
+		if len(out) > 0 {
+			return out
+		}
+	}
+	return map[string]int{"?": 1}
+}
+
+// keyRolesIn: the (type, name) values from which fn derives the fingerprint of a setting — the arguments of the Sprintf whose format
+// mentions "type": and "name": — in fn's own frame (lifted out of a key helper it calls).
+func keyRolesIn(fn *ssa.Function, depth int) (tp, name sym, ok bool) {
+	if fn == nil || depth > 2 {
+		return sym{}, sym{}, false
+	}
+	for _, b := range fn.Blocks {
+		for _, ins := range b.Instrs {
+			call, isCall := ins.(*ssa.Call)
+			if !isCall {
+				continue
+			}
+			sc := call.Common().StaticCallee()
+			if sc == nil {
+				continue
+			}
+			if sc.String() == "fmt.Sprintf" && len(call.Common().Args) == 2 {
+				f, isK := constStr(call.Common().Args[0])
+				if !isK || !strings.Contains(f, `"type":`) || !strings.Contains(f, `"name":`) {
+					continue
+				}
+				el := variadicElems(call.Common().Args[1])
+				if len(el) != 2 {
+					continue
+				}
+				a, bb := symOf(el[0]), symOf(el[1])
+				if strings.Index(f, `"type":`) > strings.Index(f, `"name":`) {
+					a, bb = bb, a
+				}
+				return a, bb, a.ok() && bb.ok()
+			}
+			if isModuleFn(sc) && strings.HasPrefix(fnPkgRel(sc), "ctrl") {
+				if t2, n2, ok2 := keyRolesIn(sc, depth+1); ok2 {
+					rt := resolveAtSite(t2, call, sc)
+					rn := resolveAtSite(n2, call, sc)
+					if rt.ok() && rn.ok() {
+						return rt, rn, true
+					}
+				}
+			}
+		}
+	}
+	return sym{}, sym{}, false
+}
+
+type settingsAPI struct {
+	basePut, baseGet *ssa.Function
+	putLike, getLike map[*ssa.Function]bool
+	inner            map[*ssa.Function]*ssa.Call // thin wrapper → the settings call it forwards to
+}
+
+// settingsAPIOf: the base routines (found by their SQL) and the thin wrappers around them: functions without loops and without
+// database calls of their own that make exactly one settings call and return its result.
+func (c *Ctx) settingsAPIOf() *settingsAPI {
+	if v, ok := c.memo["settingsAPI"]; ok {
+		return v.(*settingsAPI)
+	}
+	api := &settingsAPI{putLike: map[*ssa.Function]bool{}, getLike: map[*ssa.Function]bool{}, inner: map[*ssa.Function]*ssa.Call{}}
+	c.memo["settingsAPI"] = api
+	api.basePut, api.baseGet = c.settingsFns()
+	if api.basePut != nil {
+		api.putLike[api.basePut] = true
+	}
+	if api.baseGet != nil {
+		api.getLike[api.baseGet] = true
+	}
+	for changed := true; changed; {
+		changed = false
+		for _, fn := range moduleFuncs(c.CG()) {
+			if isTestFunc(c, fn) || !strings.HasPrefix(fnPkgRel(fn), "ctrl") || api.putLike[fn] || api.getLike[fn] || len(fn.Blocks) == 0 {
+				continue
+			}
+			var calls []*ssa.Call
+			thin := true
+			for _, b := range fn.Blocks {
+				if inCycle(b) != nil {
+					thin = false
+				}
+				for _, ins := range b.Instrs {
+					call, ok := ins.(*ssa.Call)
+					if !ok {
+						continue
+					}
+					if call.Common().IsInvoke() && isDriverConn(call.Common().Value.Type()) {
+						thin = false
+					}
+					if sc := call.Common().StaticCallee(); sc != nil && (api.putLike[sc] || api.getLike[sc]) {
+						calls = append(calls, call)
+					}
+				}
+			}
+			if !thin || len(calls) != 1 {
+				continue
+			}
+			// the wrapper returns what the settings call returns
+			returnsIt := false
+			for _, r := range returnsOf(fn) {
+				for _, res := range r.Results {
+					if res == ssa.Value(calls[0]) {
+						returnsIt = true
+					}
+					if ex, ok := res.(*ssa.Extract); ok && ex.Tuple == ssa.Value(calls[0]) {
+						returnsIt = true
+					}
+				}
+			}
+			if !returnsIt {
+				continue
+			}
+			api.inner[fn] = calls[0]
+			if api.putLike[calls[0].Common().StaticCallee()] {
+				api.putLike[fn] = true
+			} else {
+				api.getLike[fn] = true
+			}
+			changed = true
+		}
+	}
+	return api
+}
+
+// rolesAt: the (type, name, value) of the settings call, in the frame of the function that makes it.
+func (api *settingsAPI) rolesAt(call *ssa.Call, depth int) (settingRoles, bool) {
+	var r settingRoles
+	sc := call.Common().StaticCallee()
+	if sc == nil || depth > 4 {
+		return r, false
+	}
+	var in settingRoles // in sc's frame
+	switch {
+	case sc == api.basePut:
+		// INSERT INTO settings (fingerprint, type, name, value, …) VALUES ($1, $2, $3, $4, …)
+		for _, b := range sc.Blocks {
+			for _, ins := range b.Instrs {
+				ex, ok := ins.(*ssa.Call)
+				if !ok || !ex.Common().IsInvoke() || ex.Common().Method.Name() != "Exec" || len(ex.Common().Args) < 3 {
+					continue
+				}
+				el := variadicElems(ex.Common().Args[2])
+				if len(el) < 4 {
+					continue
+				}
+				in = settingRoles{symOf(el[1]), symOf(el[2]), symOf(el[3])}
+			}
+		}
+		if !in.tp.ok() {
+			return r, false
+		}
+	case sc == api.baseGet:
+		t, n, ok := keyRolesIn(sc, 0)
+		if !ok {
+			return r, false
+		}
+		in = settingRoles{t, n, sym{}}
+	case api.inner[sc] != nil:
+		var ok bool
+		in, ok = api.rolesAt(api.inner[sc], depth+1)
+		if !ok {
+			return r, false
+		}
+	default:
+		return r, false
+	}
+	r.tp = resolveAtSite(in.tp, call, sc)
+	r.name = resolveAtSite(in.name, call, sc)
+	r.value = resolveAtSite(in.value, call, sc)
+	return r, r.tp.ok() && r.name.ok()
 }
